@@ -162,6 +162,27 @@ BetterM(ma, mb) == RatCmp(<<BNMul(ma[1], BNN(Giga)), ma[2]>>, <<BNMul(mb[1], BNN
 Better(tab, cfg, stage, A, B) == BetterM(Measure(tab, cfg, stage, A), Measure(tab, cfg, stage, B))
 ExactCmp(tab, cfg, stage, A, B) == RatCmp(Measure(tab, cfg, stage, A), Measure(tab, cfg, stage, B))
 
+(* C16: the association value recorded in history() (m = the float scaled by 1e6 and rounded) against the *)
+(* exact value: V^2 = chi2/n = W / (c0*c1), T^4 = V^4 / (k-1); tolerance 3e-6 on V^2 / T^4               *)
+Ten9  == BNN(1000000000)
+Ten12 == BNMul(BNN(1000000), BNN(1000000))
+AbsDiffBN(a, b) == IF BNCmp(a, b) >= 0 THEN BNSub(a, b) ELSE BNSub(b, a)
+MeasureValueOK(tab, cfg, stage, G, m) ==
+  LET n  == Total(tab, "tr", stage)
+      c1 == SumY(tab, "tr", StageIds(tab, stage))
+      c0 == n - c1
+  IN  IF cfg.measure = "kruskal" \/ c0 * c1 = 0 \/ EmptyGroup(tab, G) THEN TRUE
+      ELSE LET w  == WBin(tab, stage, G)
+               D  == BNMul(w[2], BNN(c0 * c1))
+               m2 == BNMul(BNN(m), BNN(m))
+           IN  IF cfg.measure = "cramerv"
+               THEN BNCmp(AbsDiffBN(BNMul(m2, D), BNMul(Ten12, w[1])), BNMul(BNN(3000000), D)) <= 0
+               ELSE LET k1 == Len(G) - 1
+                        D2 == BNMul(D, D)
+                    IN  BNCmp(AbsDiffBN(BNMul(BNMul(BNMul(m2, m2), D2), BNN(k1)),
+                                        BNMul(BNMul(Ten12, Ten12), BNMul(w[1], w[1]))),
+                              BNMul(BNMul(BNMul(BNN(3), BNMul(Ten9, Ten9)), D2), BNN(k1))) <= 0
+
 -----------------------------------------------------------------------------
 (* Property C01: optimal viable grouping, two-stage *)
 HasStage2(tab, cfg) == cfg.dropna /\ cfg.hasnan
